@@ -92,8 +92,27 @@ def _spec(draw, max_n):
     return dict(n=n, r=r, theta=th, mu=mu, eps=eps, gamma=gamma, u=u, dt=dt, lap=entries, ladder=ladder)
 
 
+@st.composite
+def _solver_update_case(draw, tier):
+    """The update as the solver performs it inside a simulation (with and without screening iterations)."""
+    from .. import gen
+
+    scr = draw(st.integers(0, 2)) > 0
+    dev = draw(gen.device(terminals=(0, 2), holes=(0, 1), probes=(0,), film_kinds=("box", "ellipse"), size=(3.5, 5.0), screening=scr,
+                          lshape=False).filter(gen.valid_device))
+    fu = draw(st.sampled_from(gen.FIELD_UNITS))
+    cu = draw(st.sampled_from(gen.CURRENT_UNITS))
+    return dict(kind="solver_update", device=dev, field=draw(gen.field(dev, fu, kinds=("constant", "float", "ramp"), bmax=0.3)),
+                currents=draw(gen.currents(dev, cu, kinds=("dict",), jmax=0.2)),
+                options=dict(dt_c=draw(gen.rf(0.05, 0.4)), dtmax_c=0.45, adaptive=draw(st.booleans()), adaptive_window=3, include_screening=scr,
+                             screening_tolerance=draw(st.sampled_from([1e-3, 1e-4])), field_units=fu, current_units=cu,
+                             nsteps=draw(st.integers(2, 6)), save_every=1, terminal_psi=draw(st.sampled_from([0.0, None]))))
+
+
 def strategy(tier):
-    return _spec(12 if tier == "quick" else 64)
+    n = 12 if tier == "quick" else 64
+    # one case in forty is a whole simulation (three orders of magnitude more expensive than a direct call)
+    return st.integers(0, 39).flatmap(lambda i: _solver_update_case(tier) if i == 0 else _spec(n))
 
 
 # ------------------------------------------------------------------ oracle
@@ -225,10 +244,91 @@ def _check_ladder(spec, res, psi, abs_sq, mu, eps, L):
         res.fail("C02.update_result", f"the update's answer at dt={dt_used:.3e} is not the solution of the documented equation for that time step")
 
 
+def _check_solver_update(spec, res):
+    """Inside a simulation: every update from step n to n+1 - however many screening iterations it takes - must hand back the
+    psi' that solves the documented equation with z, w built from (psi^n, mu^n) and the time step it reports, for the link
+    variables in use when psi' was computed."""
+    from tdgl.solver.solver import TDGLSolver
+
+    from .. import build, sim
+
+    dev = build.make_device_or_refuse(spec["device"])
+    scr = bool(spec["options"]["include_screening"])
+    res.label("update inside a simulation", "screening" if scr else "no screening", "adaptive" if spec["options"]["adaptive"] else "fixed dt")
+    with sim.workdir():
+        opts = build.make_options(spec["options"], dev, output_file="out.h5")
+        try:
+            solver = build.make_solver(dev, opts, applied_vector_potential=build.make_vector_potential(spec["field"], dev, opts.field_units, opts.solve_time),
+                                       terminal_currents=build.make_currents(spec["currents"]))
+        except ValueError as exc:
+            if "does not contain any points" in str(exc):
+                res.label("discarded: terminal without boundary sites")
+                return res
+            raise
+        euler_calls = []
+        orig_euler = solver.adaptive_euler_step
+
+        def euler(step, psi, abs_sq_psi, mu, epsilon, dt):
+            out = orig_euler(step, psi, abs_sq_psi, mu, epsilon, dt)
+            euler_calls.append(dict(psi=np.array(psi), abs_sq=np.array(abs_sq_psi), mu=np.array(mu), eps=np.array(epsilon) * np.ones(len(psi)),
+                                    dt=float(out[2]), L=solver.operators.psi_laplacian.copy(), out=np.array(out[0])))
+            return out
+
+        solver.adaptive_euler_step = euler
+        updates = []
+        orig_update = solver.update
+
+        def update(state, running_state, dt, **kw):
+            first = len(euler_calls)
+            out = orig_update(state, running_state, dt, **kw)
+            updates.append(dict(psi_n=np.array(kw["psi"]), mu_n=np.array(kw["mu"]), psi_new=np.array(out.psi), dt=float(out.dt),
+                                calls=euler_calls[first:], step=int(state["step"])))
+            return out
+
+        solver.update = update
+        try:
+            solver.solve()
+        except RuntimeError as exc:
+            if "converge" not in str(exc):
+                raise
+            res.label("documented non-convergence")
+    multi = False
+    for up in updates:
+        if not up["calls"]:
+            continue
+        if len(up["calls"]) >= 2:
+            multi = True
+        a2 = np.absolute(up["psi_n"]) ** 2
+        for j, c in enumerate(up["calls"]):
+            if not (np.array_equal(c["psi"], up["psi_n"]) and np.array_equal(c["mu"], up["mu_n"]) and np.array_equal(c["abs_sq"], a2)):
+                what = [n for n, ok in (("psi", np.array_equal(c["psi"], up["psi_n"])), ("mu", np.array_equal(c["mu"], up["mu_n"])),
+                                        ("|psi|^2", np.array_equal(c["abs_sq"], a2))) if not ok]
+                res.fail("C02.update_not_from_state_n", f"step {up['step']}, screening iteration {j}: the Euler update was computed from {what} that are not those of "
+                         f"step n (max |psi - psi^n| = {float(np.max(np.abs(c['psi'] - up['psi_n']))):.3e}), so psi^(n+1) is not one update away from psi^n")
+                break
+        last = up["calls"][-1]
+        ref = TDGLSolver.solve_for_psi_squared(psi=up["psi_n"].copy(), abs_sq_psi=a2.copy(), mu=up["mu_n"], epsilon=last["eps"], gamma=solver.gamma, u=solver.u,
+                                               dt=up["dt"], psi_laplacian=last["L"])
+        if ref is None:
+            res.fail("C02.update_equation", f"step {up['step']}: update answered with dt={up['dt']:.3e} although the equation built from (psi^n, mu^n) has no solution")
+            continue
+        err = float(np.max(np.abs(ref[0] - up["psi_new"])))
+        res.stat("update_vs_equation", err)
+        if err > 1e-10:
+            res.fail("C02.update_equation", f"step {up['step']} ({len(up['calls'])} screening iteration(s)): the psi handed back differs by {err:.3e} from the solution of "
+                     f"psi' + z|psi'|^2 = w with z, w built from (psi^n, mu^n) and the reported dt={up['dt']:.3e}")
+    if multi:
+        res.label("an update with >= 2 screening iterations")
+    res.nontrivial = multi or (not scr and len(updates) >= 2)
+    return res
+
+
 def check_case(spec):
     from tdgl.solver.solver import TDGLSolver
 
     res = Result()
+    if spec.get("kind") == "solver_update":
+        return _check_solver_update(spec, res)
     psi, mu, eps, L = _inputs(spec)
     if spec.get("ladder"):
         _check_ladder(spec, res, psi, np.absolute(psi) ** 2, mu, eps, L)
